@@ -658,6 +658,38 @@ def td_harnesses(s, schemas):
         # the decoder must fail at its very first step; no legitimate loop iteration exists on this
         # input, so the unwind bound is minimal (keeps the infeasible continuation paths small)
         out.append(td_fn("c09_missing_tag", td3, None, s, "C09: a missing tag is an error", "", uw_override=2))
+    # wrong tag at variant level / field level: the writer schema is a copy whose tag is off by one
+    import copy
+    def wrong_tag_case(name, mutate, variant_idx=None):
+        w = copy.deepcopy(s)
+        mutate(w)
+        v = None
+        if w.kind == "enum":
+            v = [x for x in w.variants if x.idx == variant_idx][0]
+        tdw, _ = td_case(w, s, schemas, 11, "p", "all", "def", v)
+        out.append(td_fn(name, tdw, None, s, "C09: a wrong tag (variant / field level) is a tag-mismatch error, never accepted",
+                         'if let Err(e) = &r { assert!(e.is_tag_mismatch(), "wrong tag: not a tag-mismatch error") }'))
+    if s.kind == "enum":
+        for v in s.variants:
+            if v.tag is not None:
+                def mut(w, vi=v.idx):
+                    for x in w.variants:
+                        if x.idx == vi:
+                            x.tag += 1
+                wrong_tag_case(f"c09_wrong_variant_tag_{v.idx}", mut, v.idx)
+            for fi, f in enumerate(v.fields):
+                if f.tag is not None:
+                    def mutf(w, vi=v.idx, fi=fi):
+                        for x in w.variants:
+                            if x.idx == vi:
+                                x.fields[fi].tag += 1
+                    wrong_tag_case(f"c09_wrong_field_tag_{v.idx}_{fi}", mutf, v.idx)
+    else:
+        for fi, f in enumerate(s.fields):
+            if f.tag is not None and not f.skip:
+                def mutf(w, fi=fi):
+                    w.fields[fi].tag += 1
+                wrong_tag_case(f"c09_wrong_field_tag_{fi}", mutf)
     if s.kind == "enum":
         td4 = TD(random.Random(1), "p", "all", "def")
         if s.tag is not None:
